@@ -15,7 +15,8 @@ EXTENDS APExchange
 HeaderClasses == {"none", "otherScheme", "negotiateNoToken", "badBase64", "garbage", "negInit", "negResp", "rawKRB5",
                   "truncated", "mutated"}
 MechLists == {"empty", "krb5", "mskrb5", "other", "other_krb5", "krb5_other", "absent"}
-TokKinds == {"absent", "apreq", "aprep", "krberror", "garbage"}
+TokKinds == {"absent", "apreq", "aprep", "krberror", "garbage",
+             "cut"}      \* a Kerberos mech token that ends inside or right after its token identifier, outer lengths adjusted
 Regions == {"na", "tktCipher", "authCipher", "other"}      \* where a byte mutation of a valid header falls
 Cookies == {"none", "own", "unknown", "unauth", "garbage"}  \* own: the cookie of the session this client established;
                                                             \* unauth/garbage: the application's session holds a credentials
